@@ -38,6 +38,10 @@ def tree_digest(tree, negate_fitness: bool = False, with_counters: bool = True) 
             h.update(",".join(c.id for c in d.children).encode())
             h.update(b"A" if d.is_active else b"a")
             h.update(b"H" if d._hibernating else b"h")
+            try:  # public accessor (deme's own clock since its last sprout); part of what a restored tree must reproduce
+                h.update(b"S%d" % int(d.iterations_count_since_last_sprout))
+            except Exception:  # noqa: BLE001
+                h.update(b"S!")
             if with_counters:
                 h.update(str(int(d.n_evaluations)).encode())
             s = d._sprout_seed
